@@ -620,13 +620,13 @@ def plan_rejection(case, ctx):
     nl = FeatNormalizerList([None, None, None, build_normalizer({"kind": "density", "c1": 1.0, "p1": -1.0, "c2": 0, "p2": 0, "a0": 1, "tau_mul": 0, "gga": False})], "npa")
     good = np.ones((1, 4, 3))
     nl.get_normalized_feature_vector(good)
-    for bad in (np.ones((1, 5, 3)), np.ones((4, 3)), np.ones((1, 3, 3)), np.ones((1, 1, 4, 3))):
+    for bad in (np.ones((1, 5, 3)), np.ones((4, 3)), np.ones((1, 3, 3)), np.ones((1, 1, 4, 3)), np.ones((1, 5, 4)), np.ones((1, 3, 4))):
         try:
             nl.get_normalized_feature_vector(bad)
         except ValueError:
             continue
         ctx.check(False, ("normalizer_list_accepts_shape",), shape=bad.shape)
-    for bad in (np.ones((1, 5, 3)), np.ones((4, 3))):
+    for bad in (np.ones((1, 5, 3)), np.ones((4, 3)), np.ones((1, 5, 4))):
         try:
             nl.get_derivative_wrt_unnormed_features(bad, bad)
         except ValueError:
